@@ -30,12 +30,15 @@ VARIABLES l,        \* index of the next line
           psto,     \* node number -> previous observed store listing
           rrv,      \* node number -> (event -> round-received as observed)
           meta,     \* the x record of the segment's Init line (scenario parameters)
+          ref,      \* C03: complete output of the reference instance of the segment
+          evals,    \* C03: event -> << round, witness, lamport >> as first reported by any node
+          fames,    \* C03: witness -> fame as first decided by any node
           sub,      \* submitted transaction ids -> node
           viol,     \* accumulated property violations
           drift,    \* accumulated conformance mismatches
           stats     \* counters (for vacuity control)
 
-vars == << l, D, nodes, dlv, sto, psto, rrv, meta, sub, viol, drift, stats >>
+vars == << l, D, nodes, dlv, sto, psto, rrv, meta, ref, evals, fames, sub, viol, drift, stats >>
 
 Line == Trace[l]
 NodeNums == DOMAIN nodes
@@ -304,7 +307,14 @@ TraceSyncResult(DD, nd, x, o) ==
     IN  [ nd |-> nd4, mis |-> st2.mis, adm |-> st2.adm, selfok |-> st2.selfok,
           wantsOK |-> (from = 0 \/ wants \/ x.new = << >>), skips |-> st2.skips ]
 
+FunOfSeq(sq, key(_), val(_)) ==
+    Strict([ e \in { key(sq[k]) : k \in 1..Len(sq) } |->
+               val(sq[CHOOSE k \in 1..Len(sq) : key(sq[k]) = e]) ])
+
 Checks(pid, name, ok) == IF ok THEN {} ELSE { [ p |-> pid, inv |-> name, l |-> l, t |-> Line.t ] }
+
+\* with a detail field identifying the input class (used by known findings)
+ChecksD(pid, name, d, ok) == IF ok THEN {} ELSE { [ p |-> pid, inv |-> name, l |-> l, t |-> Line.t, d |-> d ] }
 
 AddCapped(S, T) == IF Cardinality(S) >= 40 THEN S ELSE S \cup T
 
@@ -319,6 +329,9 @@ TInit ==
     /\ psto = EmptyFun
     /\ rrv = EmptyFun
     /\ meta = [ nc |-> 0 ]
+    /\ ref = [ set |-> FALSE ]
+    /\ evals = EmptyFun
+    /\ fames = EmptyFun
     /\ sub = EmptyFun
     /\ viol = {}
     /\ drift = {}
@@ -337,6 +350,9 @@ TraceReset ==
            /\ rrv' = [ n \in ns |-> << >> ]
     /\ D' = EmptyFun
     /\ meta' = Line.x
+    /\ ref' = [ set |-> FALSE ]
+    /\ evals' = EmptyFun
+    /\ fames' = EmptyFun
     /\ sub' = EmptyFun
     /\ stats' = Bump(Bump(stats, "traces"), "lines")
     /\ UNCHANGED << viol, drift >>
@@ -345,7 +361,7 @@ TraceCreate ==
     /\ Line.a = "Create"
     /\ D' = Ext(D, Line.x.id, EvRec(Line.x))
     /\ stats' = Bump(Bump(stats, "creates"), "lines")
-    /\ UNCHANGED << nodes, dlv, sto, psto, rrv, meta, sub, viol, drift >>
+    /\ UNCHANGED << nodes, dlv, sto, psto, rrv, meta, evals, fames, ref, sub, viol, drift >>
 
 TraceSubmit ==
     /\ Line.a = "Submit"
@@ -353,7 +369,7 @@ TraceSubmit ==
                 THEN [ nodes EXCEPT ![Line.n].txpool = Append(@, Line.x.tx) ] ELSE nodes
     /\ sub' = Ext(sub, Line.x.tx, Line.n)
     /\ stats' = Bump(stats, "lines")
-    /\ UNCHANGED << D, dlv, sto, psto, rrv, meta, viol, drift >>
+    /\ UNCHANGED << D, dlv, sto, psto, rrv, meta, evals, fames, ref, viol, drift >>
 
 \* Everything a Sync line implies, computed once (TLC caches LET values inside
 \* an operator, not inside an action).
@@ -372,10 +388,20 @@ SyncOutcome(n, x, o) ==
         rrNew == Strict([ e \in { o.rr[k].e : k \in 1..Len(o.rr) } |->
                            o.rr[CHOOSE k \in 1..Len(o.rr) : o.rr[k].e = e].rr ])
         rv1 == rrNew @@ rrv[n]
+        valsNew == FunOfSeq(o.vals, LAMBDA v : v.e, LAMBDA v : << v.r, v.w, v.l >>)
+        decidedPairs == UNION { { << o.rounds[k].ws[j].e, o.rounds[k].ws[j].f >> : j \in 1..Len(o.rounds[k].ws) } : k \in 1..Len(o.rounds) }
+        fameNew == Strict([ e \in { q[1] : q \in { p \in decidedPairs : p[2] # "U" } } |->
+                             (CHOOSE q \in decidedPairs : q[1] = e /\ q[2] # "U")[2] ])
+        crossVals == \A e \in DOMAIN valsNew : e \in DOMAIN evals => evals[e] = valsNew[e]
+        crossRR == \A e \in DOMAIN rrNew : \A m \in DOMAIN rrv : (m # n /\ e \in DOMAIN rrv[m]) => rrv[m][e] = rrNew[e]
+        crossFame == \A e \in DOMAIN fameNew : e \in DOMAIN fames => fames[e] = fameNew[e]
         V == Checks("C01", "Inv_C01_Agreement", o.blocks = << >> \/ Inv_C01_Agreement(dlv1))
              \cup Checks("C02", "Inv_C02_Consecutive", o.blocks = << >> \/ Inv_C02_Consecutive(dlv1))
              \cup Checks("C02", "Inv_C02_StoreKeepsDelivered", ~hasStore \/ Inv_C02_StoreKeepsDelivered(dlv1, sto1))
              \cup Checks("C02", "Inv_C02_SigsOnlyGrow", ~hasStore \/ Inv_C02_SigsOnlyGrow(sto1, psto1))
+             \cup Checks("C03", "Inv_C03_CrossNodeValues", crossVals)
+             \cup Checks("C03", "Inv_C03_CrossNodeRoundReceived", crossRR)
+             \cup Checks("C03", "Inv_C03_CrossNodeFame", crossFame)
              \cup Checks("C04", "Inv_C04_Once", o.blocks = << >> \/ Inv_C04_Once(dlv1))
              \cup Checks("C04", "Inv_C04_Causal", Inv_C04_Causal(D, rv1, o))
              \cup Checks("C04", "Inv_C04_BlockIsFrame", Inv_C04_BlockIsFrame(D, rv1, o))
@@ -401,6 +427,7 @@ SyncOutcome(n, x, o) ==
              \cup Checks("-", "Conf_SelfEvent", r.selfok /\ r.wantsOK)
              \cup Checks("-", "Conf_FameUnambiguous", ~h1.ambig)
     IN  [ nodes |-> nodes1, dlv |-> dlv1, sto |-> sto1, psto |-> psto1, rrv |-> [ rrv EXCEPT ![n] = rv1 ],
+          evals |-> valsNew @@ evals, fames |-> fames @@ fameNew,
           viol |-> AddCapped(viol, V), drift |-> AddCapped(drift, F),
           stats |-> [ stats EXCEPT !.lines = @ + 1, !.syncs = @ + 1,
                                    !.inserts = @ + Len(x.ins) + Len(x.new),
@@ -415,10 +442,12 @@ TraceSync ==
           /\ sto' = R.sto
           /\ psto' = R.psto
           /\ rrv' = R.rrv
+          /\ evals' = R.evals
+          /\ fames' = R.fames
           /\ viol' = R.viol
           /\ drift' = R.drift
           /\ stats' = R.stats
-    /\ UNCHANGED << D, sub, meta >>
+    /\ UNCHANGED << D, sub, meta, ref >>
 
 -----------------------------------------------------------------------------
 (* C19: rows tabulated from the real PeerSet: << n, SuperMajority, TrustCount, Len >> *)
@@ -453,14 +482,88 @@ TraceQuorum ==
           /\ viol' = AddCapped(viol, R.v)
           /\ drift' = AddCapped(drift, R.f)
           /\ stats' = [ stats EXCEPT !.lines = @ + 1, !.inserts = @ + R.n ]
-    /\ UNCHANGED << D, nodes, dlv, sto, psto, rrv, meta, sub >>
+    /\ UNCHANGED << D, nodes, dlv, sto, psto, rrv, meta, evals, fames, ref, sub >>
 
 TraceQuorumAccept ==
     /\ Line.a = "QuorumAccept"
     /\ LET rows == Line.x.rows IN
        /\ viol' = AddCapped(viol, Checks("C19", "Inv_C19_Accept", \A k \in 1..Len(rows) : Inv_C19_Accept(rows[k])))
        /\ stats' = [ stats EXCEPT !.lines = @ + 1, !.inserts = @ + Len(rows), !.blocks = @ + Len(rows) ]
-    /\ UNCHANGED << D, nodes, dlv, sto, psto, rrv, meta, sub, drift >>
+    /\ UNCHANGED << D, nodes, dlv, sto, psto, rrv, meta, evals, fames, ref, sub, drift >>
+
+-----------------------------------------------------------------------------
+(* C03: one DAG, many instances                                            *)
+
+OutRec(o) ==
+    [ set |-> TRUE,
+      vals |-> FunOfSeq(o.vals, LAMBDA v : v.e, LAMBDA v : << v.r, v.w, v.l >>),
+      rr   |-> FunOfSeq(o.rr, LAMBDA v : v.e, LAMBDA v : v.rr),
+      fame |-> FunOfSeq(o.fame, LAMBDA v : v.e, LAMBDA v : v.f),
+      blocks |-> AsSeq(o.blocks) ]
+
+BlockKey(b) == << b.idx, b.rr, b.dig, b.fh, b.evs, b.txs, b.ts, b.big >>
+
+\* an instance fed all the events: identical output
+Inv_C03_SameOutput(rf, oo) ==
+    /\ oo.vals = rf.vals
+    /\ oo.rr = rf.rr
+    /\ DOMAIN oo.fame = DOMAIN rf.fame
+    /\ \A e \in DOMAIN oo.fame :
+          /\ (oo.fame[e] = "T") <=> (rf.fame[e] = "T")
+          /\ (oo.fame[e] # "U" /\ rf.fame[e] # "U") => oo.fame[e] = rf.fame[e]
+    /\ Len(oo.blocks) = Len(rf.blocks)
+    /\ \A k \in 1..MinI(Len(oo.blocks), Len(rf.blocks)) : BlockKey(oo.blocks[k]) = BlockKey(rf.blocks[k])
+
+\* an instance fed a downward-closed subset: a prefix, and agreement on
+\* everything it has fixed
+Inv_C03_Prefix(rf, oo) ==
+    /\ \A e \in DOMAIN oo.vals : e \in DOMAIN rf.vals /\ oo.vals[e] = rf.vals[e]
+    /\ \A e \in DOMAIN oo.rr : e \in DOMAIN rf.rr /\ oo.rr[e] = rf.rr[e]
+    /\ \A e \in DOMAIN oo.fame :
+          /\ e \in DOMAIN rf.fame
+          /\ oo.fame[e] = "T" => rf.fame[e] = "T"
+          /\ (oo.fame[e] # "U" /\ rf.fame[e] # "U") => oo.fame[e] = rf.fame[e]
+    /\ Len(oo.blocks) <= Len(rf.blocks)
+    /\ \A k \in 1..MinI(Len(oo.blocks), Len(rf.blocks)) : BlockKey(oo.blocks[k]) = BlockKey(rf.blocks[k])
+
+ConfBlocksLite(newOut, blocks) ==
+    /\ Len(newOut) = Len(blocks)
+    /\ \A k \in 1..MinI(Len(newOut), Len(blocks)) :
+          /\ newOut[k].idx = blocks[k].idx /\ newOut[k].rr = blocks[k].rr
+          /\ newOut[k].evs = AsSeq(blocks[k].evs) /\ newOut[k].txs = AsSeq(blocks[k].txs)
+
+HgOutcome(n, x, o) ==
+    LET nd == nodes[n]
+        h1 == InsertAllAndRun(D, nd.h, AsSeq(x.ins))
+        F == Checks("-", "Conf_Vals", ConfVals(h1, o))
+             \cup Checks("-", "Conf_RR", ConfRR(h1, o) /\ \A e \in DOMAIN h1.E : (h1.E[e].rr # -1) <=> (\E k \in 1..Len(o.rr) : o.rr[k].e = e))
+             \cup Checks("-", "Conf_Rounds", ConfRounds(h1, o))
+             \cup Checks("-", "Conf_Blocks", ConfBlocksLite(h1.out, o.blocks))
+             \cup Checks("-", "Conf_FameUnambiguous", ~h1.ambig)
+    IN  [ nodes |-> [ nodes EXCEPT ![n].h = h1 ], ref |-> OutRec(o), drift |-> AddCapped(drift, F),
+          stats |-> [ stats EXCEPT !.lines = @ + 1, !.syncs = @ + 1, !.inserts = @ + Len(x.ins), !.blocks = @ + Len(o.blocks) ] ]
+
+TraceHgInsert ==
+    /\ Line.a = "HgInsert"
+    /\ \E R \in { HgOutcome(Line.n, Line.x, Line.o) } :
+          /\ nodes' = R.nodes /\ ref' = R.ref /\ drift' = R.drift /\ stats' = R.stats
+    /\ UNCHANGED << D, dlv, sto, psto, rrv, meta, evals, fames, sub, viol >>
+
+TraceInstance ==
+    /\ Line.a = "Instance"
+    /\ \E V \in { IF Line.o.err # "" THEN {}      \* unsupported configuration (an error, not a result)
+                    ELSE IF Line.x.subset
+                    THEN ChecksD("C03", "Inv_C03_Prefix", "subset", Inv_C03_Prefix(ref, OutRec(Line.o)))
+                    ELSE IF Line.o.partial   \* some values not observable (evicted): blocks must be equal, the rest as far as seen
+                    THEN ChecksD("C03", "Inv_C03_SameOutput", "partial-" \o Line.x.kind,
+                                 Inv_C03_Prefix(ref, OutRec(Line.o)) /\ Len(Line.o.blocks) = Len(ref.blocks))
+                    ELSE ChecksD("C03", "Inv_C03_SameOutput", IF Line.x.batch # 1 THEN "batched-consensus-passes" ELSE Line.x.kind,
+                                 Inv_C03_SameOutput(ref, OutRec(Line.o))) } :
+          viol' = AddCapped(viol, V)
+    /\ stats' = [ stats EXCEPT !.lines = @ + 1, !.inserts = @ + Line.x.nins,
+                               !.blocks = @ + Len(Line.o.blocks),
+                               !.skipped = @ + (IF Line.o.err # "" THEN 1 ELSE 0) ]
+    /\ UNCHANGED << D, nodes, dlv, sto, psto, rrv, meta, evals, fames, ref, sub, drift >>
 
 \* common.Median tabulated from the real code on enumerated lists
 TraceMedian ==
@@ -469,19 +572,19 @@ TraceMedian ==
        /\ viol' = AddCapped(viol, Checks("C18", "Inv_C18_MedianFunction",
                         \A k \in 1..Len(rows) : Median(AsSeq(rows[k].l)) = rows[k].m))
        /\ stats' = [ stats EXCEPT !.lines = @ + 1, !.inserts = @ + Len(rows) ]
-    /\ UNCHANGED << D, nodes, dlv, sto, psto, rrv, meta, sub, drift >>
+    /\ UNCHANGED << D, nodes, dlv, sto, psto, rrv, meta, evals, fames, ref, sub, drift >>
 
 \* lines that carry no specification step (the driver could not run the step)
 TraceNoop ==
     /\ Line.a \in { "SyncFail", "Note" }
     /\ stats' = Bump(stats, "lines")
-    /\ UNCHANGED << D, nodes, dlv, sto, psto, rrv, meta, sub, viol, drift >>
+    /\ UNCHANGED << D, nodes, dlv, sto, psto, rrv, meta, evals, fames, ref, sub, viol, drift >>
 
 TraceStep ==
     /\ l <= NLines
     /\ l' = l + 1
     /\ \/ TraceReset \/ TraceCreate \/ TraceSubmit \/ TraceSync \/ TraceNoop
-       \/ TraceQuorum \/ TraceQuorumAccept \/ TraceMedian
+       \/ TraceQuorum \/ TraceQuorumAccept \/ TraceMedian \/ TraceHgInsert \/ TraceInstance
 
 TraceDone ==
     /\ l = NLines + 1
@@ -490,7 +593,7 @@ TraceDone ==
     /\ PrintT(<< "@@DRIFT", drift >>)
     /\ PrintT(<< "@@STATS", stats >>)
     /\ PrintT(<< "@@DONE", NLines >>)
-    /\ UNCHANGED << D, nodes, dlv, sto, psto, rrv, meta, sub, viol, drift, stats >>
+    /\ UNCHANGED << D, nodes, dlv, sto, psto, rrv, meta, ref, evals, fames, sub, viol, drift, stats >>
 
 TNext == TraceStep \/ TraceDone
 
